@@ -253,6 +253,36 @@ def run(pid: str, tier: str, seed: int, selftest=False, replay=None) -> int:
                 sig = [kname] + [f"i{w_in}"] * nin + [f"i{w_out}"]
                 dcases.append({"kind": "dispatchdecl", "name": f"dispatch:{acc_name}:{kname}:i{w_in}->i{w_out}", "declared": declared, "sig": sig,
                                "dispatched": 1 if lib.startswith(acc_name) else 0, "text": text})
+    # modules with several layers (one pass run sees all of them): both accelerators registered, kernels of the same kind and input
+    # types with different result types next to each other
+    from xdsl.dialects import linalg as _linalg
+    decl = {a: [[sk.kernel_type.name] + [str(t) for t in sk.operand_types] for sk in ctx.get_acc(a).supported_kernels] for a in ("snax_alu", "snax_gemmx")}
+    for k in range(40 if quick else 600):
+        layers = []
+        base = (rng.choice(["kernel.add", "kernel.mul", "kernel.mac"]), rng.choice([8, 64]))
+        for _ in range(rng.choice([2, 3, 4])):
+            kname, w_in = base if rng.random() < 0.7 else (rng.choice(["kernel.add", "kernel.mul", "kernel.mac"]), rng.choice([8, 32, 64]))
+            layers.append((kname, w_in, rng.choice([8, 16, 32, 64])))
+        funcs = []
+        for j, (kname, w_in, w_out) in enumerate(layers):
+            t = generic_text([w_in, w_in, w_out], [f"%v1 = {kname} %b0, %b1 : i{w_in}, i{w_in} -> i{w_out}"], "%v1")
+            funcs.append(t[t.index("func.func"):t.rindex("}")].replace("@f(", f"@f{j}("))
+        text = "builtin.module {\n  " + "\n  ".join(funcs) + "}\n"
+        try:
+            m = repo.parse(text)
+            m.verify()
+            repo.run_pipeline(m, "insert-accfg-op{accelerator=snax_alu},insert-accfg-op{accelerator=snax_gemmx},dispatch-kernels")
+        except Exception as e:
+            rep.violation(f"dispatch:layers:{seed}:{k}", f"dispatch-kernels raised {type(e).__name__}: {str(e)[:150]}", {"source": text})
+            continue
+        gens = [o for o in m.walk() if isinstance(o, _linalg.GenericOp)]
+        if len(gens) != len(layers):
+            raise MachineryError("layer count changed")
+        for j, (g, (kname, w_in, w_out)) in enumerate(zip(gens, layers)):
+            lib = g.library_call.data if g.library_call else ""
+            accn = next((a for a in decl if lib.startswith(a)), None)
+            dcases.append({"kind": "dispatchdecl", "name": f"dispatch:layers:{seed}:{k}#{j}:{kname}:i{w_in}->i{w_out}", "declared": decl[accn] if accn else [["none"]],
+                           "sig": [kname, f"i{w_in}", f"i{w_in}", f"i{w_out}"], "dispatched": 1 if accn else 0, "text": text})
     if dcases:
         r, verdicts = run_obj_batch(pid, dcases, tag="dispatch")
         rep.add_tlc(r)
